@@ -319,6 +319,63 @@ def size(spec):
     return sum(1 for _ in walk(spec))
 
 
+def dnf_lengths(spec, cap=600):
+    """clause lengths of the DNF pkgcore derives for the node (upper estimate), None if more than `cap` clauses"""
+    k = spec["k"]
+    if k == "and" and not spec.get("neg"):
+        cur = [0]
+        for c in spec["c"]:
+            sub = dnf_lengths(c, cap)
+            if sub is None or len(cur) * len(sub) > cap:
+                return None
+            cur = [a + b for a in cur for b in sub]
+        return cur
+    if k == "or" and not spec.get("neg"):
+        out = []
+        for c in spec["c"]:
+            sub = dnf_lengths(c, cap)
+            if sub is None:
+                return None
+            out.extend(sub)
+            if len(out) > cap:
+                return None
+        return out or [0]
+    if k == "and":
+        return [1] * max(len(spec["c"]), 1)
+    if k == "or":
+        # De Morgan clause (+ the members again on a tree without the missing-return fix)
+        out = [max(len(spec["c"]), 1)]
+        for c in spec["c"]:
+            sub = dnf_lengths(c, cap)
+            if sub is None:
+                return None
+            out.extend(sub)
+        return out if len(out) <= cap else None
+    if k == "atom":
+        return [6]
+    return [1]
+
+
+def cnf_count(spec, cap=4000):
+    """number of CNF clauses pkgcore derives for the node (upper estimate; `cap`+1 = too many)"""
+    k = spec["k"]
+    if k == "and" and not spec.get("neg"):
+        return min(cap + 1, sum(cnf_count(c, cap) for c in spec["c"]))
+    if k == "or" and not spec.get("neg"):
+        n = 1
+        for c in spec["c"]:
+            sub = dnf_lengths(c)
+            if sub is None:
+                return cap + 1
+            for ln in sub:
+                if ln > 1:
+                    n *= ln
+                    if n > cap:
+                        return cap + 1
+        return n
+    return 1
+
+
 # ---------------------------------------------------------------------------------------------
 # builder
 # ---------------------------------------------------------------------------------------------
@@ -608,13 +665,13 @@ def draw_cross(draw, prof: Profile):
         r = _int(draw, 0, 9)
         nt = _pick(draw, ["package", None])
         if r < 7:
-            return {"k": "or", "neg": False, "nt": nt, "c": [lf() for _ in range(_int(draw, 2, 3))]}
+            return {"k": "or", "neg": False, "nt": nt, "c": [lf() for _ in range(_pick(draw, [2, 2, 2, 3]))]}
         if r < 8:
             return {"k": "and", "neg": True, "nt": nt, "c": [lf() for _ in range(2)]}
         inner = {"k": "or", "neg": False, "nt": nt, "c": [lf() for _ in range(2)]}
         return {"k": "and", "neg": False, "nt": nt, "c": [inner, lf()] if _boold(draw) else [lf(), inner]}
 
-    kids = [multi() for _ in range(_pick(draw, [2, 2, 2, 3]))]
+    kids = [multi() for _ in range(_pick(draw, [2, 2, 2, 2, 3]))]
     r = _int(draw, 0, 5)
     if r == 0:
         kids.insert(_int(draw, 0, len(kids)), lf())
